@@ -228,7 +228,29 @@ class Runner:
                 if e.id == ev:
                     return e(*args, **kw)
             raise HarnessError(f"{ev} not in sm.allowed_events")
+        if style == "foreign_bound":
+            # the event is named by a BoundEvent (a ``str``) that belongs to ANOTHER machine -- e.g. an
+            # ``event`` value journalled by a listener and replayed: send() addresses the machine it is
+            # called on, by name
+            return sm.send(getattr(self._helper_machine(ev), ev), *args, **kw)
         raise HarnessError(f"unknown style {style}")
+
+    def _helper_machine(self, ev):
+        """An unrelated machine (no callbacks, own model) that declares an event of the given name."""
+        h = self._helpers.get(ev) if hasattr(self, "_helpers") else None
+        if h is None:
+            from statemachine import State
+            from statemachine import StateMachine
+
+            h0 = State(initial=True)
+            h1 = State()
+            attrs = {"h0": h0, "h1": h1, ev: h0.to(h1) | h1.to(h0)}
+            cls = type("SimHelperMachine", (StateMachine,), attrs)
+            h = cls()
+            if not hasattr(self, "_helpers"):
+                self._helpers = {}
+            self._helpers[ev] = h
+        return h
 
     def do_noop(self, op):
         return None
